@@ -896,8 +896,31 @@ func (fx *FuncCtx) evalSliceExpr(st *State, x *ast.SliceExpr) Val {
 		} else {
 			arr = b.(ArrayV)
 		}
-		fx.unsupportedf("slicing of array %s", fx.src(x))
-		_ = arr
+		// Slicing an array: a fresh region initialised with the array's contents.
+		// Writes through the slice would have to be reflected in the array; that is
+		// not modelled, so such regions are read-only (stores are outside the subset).
+		es := fx.elemSort(arr.T.Elem())
+		n := arr.T.Len()
+		lo := IntLit(0)
+		if x.Low != nil {
+			lo = fx.evalTerm(st, x.Low)
+		}
+		hi := IntLit(n)
+		if x.High != nil {
+			hi = fx.evalTerm(st, x.High)
+		}
+		fx.oblige(st, "slice", And(Ge(lo, IntLit(0)), Le(lo, hi), Le(hi, IntLit(n))), x, "")
+		rid := fx.freshConst("alloc_arrview", SInt)
+		st.assume(Lt(rid, IntLit(0)))
+		for _, prev := range st.allocs {
+			st.assume(Not(Eq(rid, prev)))
+		}
+		st.allocs = append(st.allocs[:len(st.allocs):len(st.allocs)], rid)
+		name := memName(arr.T.Elem())
+		m := fx.heapGet(st, name, fx.memSort(arr.T.Elem()))
+		st.heap[name] = fx.define(name, Store(m, rid, arr.Arr))
+		_ = es
+		return SliceV{Rid: rid, Off: lo, Len: Sub(hi, lo), Cap: Sub(IntLit(n), lo), Elem: arr.T.Elem()}
 	}
 	fx.unsupportedf("slice expression on %s", valString(base))
 	return nil
@@ -990,6 +1013,9 @@ func (fx *FuncCtx) loadHeap(st *State, prefix string, ref Term, t types.Type) Va
 			return Select(fx.heapGet(st, prefix+"."+s, ArraySort(SInt, SInt)), ref, SInt)
 		}
 		sv := SliceV{Rid: g("rid"), Off: g("off"), Len: g("len"), Cap: g("cap"), Elem: u.Elem()}
+		if fx.inQuant > 0 {
+			return sv
+		}
 		st.assume(And(Ge(sv.Rid, IntLit(0)), Ge(sv.Off, IntLit(0)), Ge(sv.Len, IntLit(0)), Le(sv.Len, sv.Cap), Implies(Eq(sv.Rid, IntLit(0)), Eq(sv.Cap, IntLit(0)))))
 		return sv
 	case *types.Array:
@@ -1008,7 +1034,7 @@ func (fx *FuncCtx) loadHeap(st *State, prefix string, ref Term, t types.Type) Va
 	}
 	s := fx.sortOf(t)
 	v := Select(fx.heapGet(st, prefix, ArraySort(SInt, s)), ref, s)
-	if k, ok := intInfo(t); ok {
+	if k, ok := intInfo(t); ok && fx.inQuant == 0 {
 		st.assume(k.rangeOf(v))
 	}
 	if s == SInt {
